@@ -249,7 +249,7 @@ def _spelled(xml, p):
     return xml
 
 
-def _cli_parse(cli, open_fn, def_path, index, def_cls=None):
+def _cli_parse(cli, open_fn, def_path, index, def_cls=None, skip=0):
     """the real parse command body with the terminal output recorded; -> (recorder, exception name)"""
     from pathlib import Path
     rec = Recorder()
@@ -261,7 +261,7 @@ def _cli_parse(cli, open_fn, def_path, index, def_cls=None):
     cli.open = open_fn
     try:
         try:
-            cli.parse.callback(Path("symbolic.bin"), Path(def_path), index, 20, 40, 0)
+            cli.parse.callback(Path("symbolic.bin"), Path(def_path), index, 20, 40, skip)
             exc = None
         except Exception as e:    # noqa: BLE001
             exc = type(e).__name__
@@ -290,7 +290,7 @@ class ParseCLI(_e2e.E2E):
             @classmethod
             def from_xtce(cls, path, **kw):
                 return bv.symbolize_definition(lib.definitions.XtcePacketDefinition.from_xtce(path, **kw))
-        return _cli_parse(cli, lambda path, mode="rb": bv.SymFileBV(stream), self.xml_path, index, Def)
+        return _cli_parse(cli, lambda path, mode="rb": bv.SymFileBV(stream), self.xml_path, index, Def, skip=self.job["params"].get("skip", 0))
 
     def run(self, ctx):
         if self.load_error:
@@ -383,6 +383,8 @@ def jobs(tier):
     N = 13 if tier == "quick" else 24
     return [{"name": "describe", "h": "describe", "params": {"N": N}, "split": 8, "chunk": 20, "must_reach": ["n0", "n10", "n11"]},
             {"name": "parse", "h": "parse", "params": {"N": N}, "split": 16, "chunk": 30, "must_reach": ["shown", "oor"]}] + \
+        [{"name": "parse-cli-T4-9-10-skip-header-bytes-3", "h": "parse-cli", "params": {"template": "T4", "lens": [9, 10], "flagsets": [1], "skip": 3}, "split": 16, "chunk": 25,
+          "max_paths": 100000, "must_reach": []}] + \
         [{"name": "parse-cli-T6-12-commented-definition", "h": "parse-cli", "params": {"template": "T6", "lens": [12], "flagsets": [1], "commented": True}, "split": 8, "chunk": 25,
           "max_paths": 100000, "must_reach": []}] + \
         [{"name": f"parse-cli-{t}-{'-'.join(map(str, lens))}", "h": "parse-cli", "params": {"template": t, "lens": lens, "flagsets": [1]}, "split": 16, "chunk": 25,
@@ -473,6 +475,7 @@ def _parse_cli_concrete(req):
     i = req["input"]
     xml, _, _ = templates.get(i["template"])
     stream = bytes.fromhex(i["stream"]["hex"])
+    skip = (req.get("params") or {}).get("skip", 0)
     with tempfile.TemporaryDirectory(prefix="spv_c19_") as d:
         xf = os.path.join(d, "x.xml")
         open(xf, "wb").write(_spelled(xml, req.get("params") or {}))
@@ -481,21 +484,23 @@ def _parse_cli_concrete(req):
             return {"cls": "ran", "empty_file": {"exc": exc, "printed": [str(x)[:80] for x in rec.pp]}}
 
         def runner(_xml, _stream):
-            rec, exc = _cli_parse(cli, lambda path, mode="rb": io.BytesIO(_stream), xf, None)
+            rec, exc = _cli_parse(cli, lambda path, mode="rb": io.BytesIO(_stream), xf, None, skip=skip)
             lst = rec.pp[0] if rec.pp and isinstance(rec.pp[0], list) else []
             return list(lst), ("stop" if exc is None and rec.pp else "exc:" + str(exc))
-        got = _e2e.run_real(xml, stream, True, False, len(i["lens"]), runner=runner)
+        pp = dict(req.get("params") or {}, template=i["template"])
+        got = _e2e.run_real(xml, stream, True, False, len(i["lens"]), runner=runner, p=pp)
         if got["end"] != "stop":
             cli_end = got["end"]
-            got = _e2e.run_real(xml, stream, True, False, len(i["lens"]))
+            got = _e2e.run_real(xml, stream, True, False, len(i["lens"]), p=pp)
             got.update(index=None, cli_end=cli_end)
             return got
-        rec, exc = _cli_parse(cli, lambda path, mode="rb": io.BytesIO(stream), xf, i["idx"])
+        rec, exc = _cli_parse(cli, lambda path, mode="rb": io.BytesIO(stream), xf, i["idx"], skip=skip)
     shown = rec.pp[0] if rec.pp else None
     k = None
     if shown is not None and not isinstance(shown, list):
         raw, o, j = bytes(shown.raw_data), 0, 0
-        while o + 6 <= len(stream):
+        while o + skip + 6 <= len(stream):
+            o += skip
             n = 7 + int.from_bytes(stream[o + 4:o + 6], "big")
             if stream[o:o + n] == raw and k is None:
                 k = j
